@@ -7,8 +7,10 @@
    function [h] of the structure a type feeds to it ([*_hash_key]). *)
 From V Require Import Base.Word Base.Field C15.BigIntModel C01.MontModel C01.MontProofs
   C03.CurveExec C03.FieldHyp C03.TEProofs C08.Model C08.Common
-  C19.OrdModel C19.Exprs C19.PolyExprs C19.OrdProofs C19.PointProofs C19.TorsionProofs C19.PolyProofs C19.Examples.
-Require Import Coq.setoid_ring.Field_theory.
+  C19.OrdModel C19.Exprs C19.PolyExprs C19.OrdProofs C19.PointProofs C19.TorsionProofs C19.PolyProofs C19.Examples
+  C17.MvPoly C17.Spec C19.MvModel C19.MvEqProofs.
+From V Require C09.Bytes C09.FpCodec C09.PointCodec C09.Exec C19.DecProofs.
+Require Import Coq.setoid_ring.Field_theory Coq.setoid_ring.Ring_theory.
 
 (* ================= prime fields ================= *)
 
@@ -400,3 +402,82 @@ Proof. exact @sparse_sub_self_zero. Qed.
 Example C19_poly_results_example : scanon QcOps [(1%nat, q 2); (3%nat, q 5)] /\ Common.canon QcOps [q 2; q 0; q 5] /\
   (forall c, c <> f0 QcOps -> (fun x => x) c <> f0 QcOps).
 Proof. exact ex_scanon. Qed.
+
+(* ================= multivariate sparse polynomials ================= *)
+
+(* Stored form of SparsePolynomial<F, SparseTerm>: the `terms` vector (coefficients through any encoding).
+   [mv_canonical z p]: canonical terms, strictly increasing in the term order, no coefficient z;
+   [mcoeff z p t] = coefficient of the monomial t.  Derived `==` on canonical lists is identity of the
+   monomial -> coefficient maps. *)
+Theorem C19_mv_eq_iff_same_poly : forall T (z : T) (eqb : T -> T -> bool),
+  (forall x y, eqb x y = true <-> x = y) ->
+  forall p q, mv_canonical z p -> mv_canonical z q ->
+  (mv_eqb eqb p q = true <-> forall t, term_canon t -> mcoeff z p t = mcoeff z q t).
+Proof. exact (fun T => @mv_eq_iff_same_poly T). Qed.
+
+(* the hash key is the compared structure (`terms`): equal values hash equally *)
+Theorem C19_mv_hash_respects_eq : forall T (eqb : T -> T -> bool),
+  (forall x y, eqb x y = true <-> x = y) ->
+  forall (H : Type) (h : list (T * term) -> H) p q,
+  mv_eqb eqb p q = true -> h (mv_hash_key p) = h (mv_hash_key q).
+Proof. exact (fun T => @mv_hash_respects_eq T). Qed.
+
+Theorem C19_mv_is_zero_canonical : forall T (z : T) (is0 : T -> bool),
+  (forall x, is0 x = true <-> x = z) ->
+  forall p, mv_canonical z p -> (mv_is_zero is0 p = true <-> p = []).
+Proof. exact (fun T => @mv_is_zero_canonical T). Qed.
+
+(* A canonical value is stored canonically under any coefficient encoding [r] that sends only 0 to z (for Fp: the
+   Montgomery limb vector).  coq/Props/C17.v proves [p_canon] for from_coefficients_vec (C17_mv_from_terms_canonical)
+   and for + - neg +=(f,q) on canonical operands (C17_mv_add_canonical, _sub_, _neg_, _scaled_add_canonical): hence
+   C19_mv_eq_iff_same_poly applies to every pair of operator results. *)
+Theorem C19_mv_result_canonical : forall (K : Type) (F : Fops K) (T : Type) (z : T) (r : K -> T),
+  (forall c, c <> f0 F -> r c <> z) ->
+  forall q : mvpoly K, p_canon F q -> mv_canonical z (stored_mv r q).
+Proof. exact @mv_stored_canonical. Qed.
+
+(* `p += (0, &q)` stores exactly the terms of p (whatever q is): the result == p, hashes like p, has p's degree and
+   term count; on the empty polynomial nothing is stored.  The Rust `AddAssign<(F, &Self)>` builds f * q term by term
+   and relies on the final "remove zero terms" pass of `Add` for this. *)
+Theorem C19_mv_scaled_add_zero_scalar : forall (K : Type) (F : Fops K),
+  ring_theory (f0 F) (f1 F) (fadd F) (fmul F) (fsub F) (fneg F) (@eq K) ->
+  (forall a b, feqb F a b = true <-> a = b) ->
+  forall p q : mvpoly K, p_canon F p -> p_terms (p_add_scaled F p (f0 F) q) = p_terms p.
+Proof. exact @mv_scaled_add_zero_scalar. Qed.
+
+Theorem C19_mv_zero_scaled_add_zero_scalar : forall (K : Type) (F : Fops K),
+  ring_theory (f0 F) (f1 F) (fadd F) (fmul F) (fsub F) (fneg F) (@eq K) ->
+  (forall a b, feqb F a b = true <-> a = b) ->
+  forall (nv : nat) (q : mvpoly K), p_terms (p_add_scaled F (mkP nv []) (f0 F) q) = [].
+Proof. exact @mv_zero_scaled_add_zero_scalar. Qed.
+
+(* 3 x0 + 5 x0 x1 over Q (identity encoding): the hypotheses of the theorems above are satisfiable *)
+Example C19_mv_example :
+  ring_theory (f0 QcOps) (f1 QcOps) (fadd QcOps) (fmul QcOps) (fsub QcOps) (fneg QcOps) (@eq Qcanon.Qc) /\
+  (forall a b, feqb QcOps a b = true <-> a = b) /\
+  (forall c : Qcanon.Qc, c <> f0 QcOps -> (fun x => x) c <> f0 QcOps) /\
+  p_canon QcOps ex_mv_p /\
+  mv_canonical (f0 QcOps) (stored_mv (fun x => x) ex_mv_p) /\
+  mcoeff (f0 QcOps) (stored_mv (fun x => x) ex_mv_p) [(0%nat, 1); (1%nat, 1)] = q 5.
+Proof. exact ex_mv_hyps. Qed.
+
+(* ================= points obtained by deserialization ================= *)
+
+(* Whatever buffer the codec model (coq/C09: sw_dec, both Compress and both Validate modes) accepts, a decoded value with
+   the infinity flag set is structurally Affine::identity() = (0, 0, true) -- also when the coordinate bytes under
+   the infinity flag were not blank.  So on decoded values `== identity()` and the hash agree with is_zero(). *)
+Theorem C19_sw_decoded_infinity_is_identity : forall (K : Type) (F : Fops K) (C : FpCodec.Codec K)
+  (sqrt : K -> option K) (cmp : K -> K -> comparison) (ca cb : K) (sub : PointCodec.swaff (K := K) -> bool)
+  bs compress validate P rest,
+  PointCodec.sw_dec F C sqrt cmp ca cb sub bs compress validate = Bytes.Ok (P, rest) ->
+  PointCodec.sinf P = true -> P = PointCodec.sw_identity F.
+Proof. exact @DecProofs.sw_dec_infinity_is_identity. Qed.
+
+(* y^2 = x^3 + 7 over F_13: the uncompressed bytes of (7, 8) with the infinity bit on top decode to the identity *)
+Example C19_sw_decoded_example :
+  let F := ZpOps 13 in let C := FpCodec.fp_codec 1 13 in let sq := C09.Exec.fsqrt F 2 in
+  let sub := fun P : PointCodec.swaff => C09.Exec.sw_order_divides F 0 7 (PointCodec.sx P) (PointCodec.sy P) in
+  PointCodec.sw_dec F C sq Z.compare 0 7 sub [7; 72] false true = Bytes.Ok (PointCodec.sw_identity F, []) /\
+  PointCodec.sw_dec F C sq Z.compare 0 7 sub [7; 72] false false = Bytes.Ok (PointCodec.mkSW 0 0 true, []) /\
+  PointCodec.sw_dec F C sq Z.compare 0 7 sub [71] true false = Bytes.Ok (PointCodec.sw_identity F, []).
+Proof. exact DecProofs.ex_dec_infinity_nonblank. Qed.
